@@ -182,10 +182,10 @@ CLOCK_STEPS = [1, 3, 10, 20, 50, 99, 100, 101, 250, 999, 1000, 1001, 5000, 30000
 
 def universal(rng, nif=None, length=None, with_glob_changes=True):
     """ops for 1..3 interfaces of one responder"""
-    nif = nif or rng.choice([1, 1, 1, 2, 2, 3, 3, 9, 17, 24][:rng.choice([7, 7, 7, 10])])      # now and then a host with many interfaces (VLANs, containers)
+    nif = nif or rng.choice([1, 1, 1, 2, 2, 3, 3, 9, 17, 24, 33, 40, 66, 70][:rng.choice([7, 7, 7, 10, 14])])      # now and then a host with many interfaces (VLANs, containers, a hypervisor)
     clocked = rng.random() < 0.5
     mtus = [rng.choice([576, 576, 1500, 1492, 577 + rng.randrange(40), 9216]) for _ in range(nif)]
-    macs = (IFMACS + ['02aabbcc%02x%02x' % (0xe0 + k // 8, k) for k in range(3, 32)])[:nif]
+    macs = (IFMACS + ['02aabbcc%02x%02x' % (0xe0 + (k // 8) % 32, k % 256) for k in range(3, 256)])[:nif]
     if nif >= 2 and rng.random() < 0.15:
         macs = [macs[0]] * nif           # a bridge and its port, bond slaves, a VLAN sub-interface: distinct contexts, one hardware address
     ops = []
